@@ -176,6 +176,16 @@ pub(crate) fn get_gdef_classes(
     })
 }
 
+/// Round like [`OtRound`], but fail instead of saturating if the result does not fit in an i16
+fn checked_i16(value: f64) -> Result<i16, DeltaError> {
+    let rounded: f64 = value.ot_round();
+    if (i16::MIN as f64..=i16::MAX as f64).contains(&rounded) {
+        Ok(rounded as i16)
+    } else {
+        Err(DeltaError::ValueOutOfRange(value))
+    }
+}
+
 //NOTE: this is basically identical to the same method on FeaVariationInfo,
 //except they have slightly different inputs?
 pub(crate) fn resolve_variable_metric<'a>(
@@ -217,14 +227,15 @@ pub(crate) fn resolve_variable_metric<'a>(
         })
         .collect();
 
-    let default_value: i16 = raw_deltas
-        .iter()
-        .filter_map(|(region, value)| {
-            let scaler = region.scalar_at(&var_model.default).into_inner();
-            (scaler != 0.0).then_some(*value * scaler)
-        })
-        .sum::<f64>()
-        .ot_round();
+    let default_value = checked_i16(
+        raw_deltas
+            .iter()
+            .filter_map(|(region, value)| {
+                let scaler = region.scalar_at(&var_model.default).into_inner();
+                (scaler != 0.0).then_some(*value * scaler)
+            })
+            .sum::<f64>(),
+    )?;
 
     let mut deltas = Vec::with_capacity(raw_deltas.len());
     for (region, value) in raw_deltas.iter().filter(|(r, _)| !r.is_default()) {
@@ -239,7 +250,7 @@ pub(crate) fn resolve_variable_metric<'a>(
         }
         deltas.push((
             write_fonts::tables::variations::VariationRegion { region_axes },
-            value.ot_round(),
+            checked_i16(*value)?,
         ));
     }
 
@@ -345,21 +356,23 @@ impl VariationInfo for FeaVariationInfo<'_> {
             .collect();
 
         // Compute the default on the unrounded deltas
-        let default_value = deltas
-            .iter()
-            .filter_map(|(region, value)| {
-                let scaler = region.scalar_at(&var_model.default).into_inner();
-                (scaler != 0.0).then_some(*value * scaler)
-            })
-            .sum::<f64>()
-            .ot_round();
+        let default_value = checked_i16(
+            deltas
+                .iter()
+                .filter_map(|(region, value)| {
+                    let scaler = region.scalar_at(&var_model.default).into_inner();
+                    (scaler != 0.0).then_some(*value * scaler)
+                })
+                .sum::<f64>(),
+        )
+        .map_err(Error::DeltaError)?;
 
         // Produce the desired delta type
         let mut fears_deltas = Vec::with_capacity(deltas.len());
         for (region, value) in deltas.iter().filter(|(r, _)| !r.is_default()) {
             fears_deltas.push((
                 region.to_write_fonts_variation_region(&self.static_metadata.axes),
-                value.ot_round(),
+                checked_i16(*value).map_err(Error::DeltaError)?,
             ));
         }
 
@@ -817,5 +830,36 @@ mod tests {
         assert!(!regions.iter().any(|(r, _)| is_default(r)));
         let region_values: Vec<_> = regions.into_iter().map(|(_, v)| v + default).collect();
         assert_eq!((15, vec![10, 20]), (default, region_values));
+    }
+
+    #[test]
+    fn resolve_metric_that_does_not_fit_is_an_error() {
+        let wght = Tag::new(b"wght");
+        let static_metadata = weight_variable_static_metadata();
+        let locations: Vec<NormalizedLocation> = [-1.0, 0.0, 1.0]
+            .into_iter()
+            .map(|pos| vec![(wght, NormalizedCoord::new(pos))].into())
+            .collect();
+        let resolve = |values: [f64; 3]| {
+            let values: Vec<_> = values.into_iter().map(OrderedFloat).collect();
+            resolve_variable_metric(&static_metadata, locations.iter().zip(values.iter()))
+        };
+
+        assert_eq!(resolve([32747.0, 32767.0, 32757.0]).unwrap().0, 32767);
+        // the default value doesn't fit
+        assert!(matches!(
+            resolve([0.0, 32768.0, 0.0]),
+            Err(DeltaError::ValueOutOfRange(_))
+        ));
+        // every master value fits, the delta doesn't
+        assert!(matches!(
+            resolve([0.0, -20000.0, 20000.0]),
+            Err(DeltaError::ValueOutOfRange(_))
+        ));
+
+        // and the same for values that come from FEA
+        let var_info = FeaVariationInfo::new(&static_metadata);
+        let values = locations.iter().cloned().zip([0, -20000, 20000]).collect();
+        assert!(var_info.resolve_variable_metric(&values).is_err());
     }
 }
